@@ -226,16 +226,26 @@ answers to all other lines as they are, on this and on every other connection of
 /-- the line asks for nothing a module carries out -/
 def Neutral (T : Tables) (line : Bytes) : Bool := !(T.stateActions.contains (reqOf T line).action)
 
+/-- the line is not a message: its text is not valid UTF-8 or its data part is not JSON (`decode_msg`
+raises, the request loop answers it with an error reply without asking the dispatcher) -/
+def undecodableB {J : Type} (L : Lib J) (line : Bytes) : Bool :=
+  !L.utf8ok (strip line) || ((parts (strip line)).data != [] && (L.loads (parts (strip line)).data).isNone)
+
+/-- a line that may be left out: neutral, or not a message at all (also when it begins like `read`,
+`change` or `do`) -/
+def Removable {J : Type} (T : Tables) (L : Lib J) (line : Bytes) : Bool := Neutral T line || undecodableB L line
+
 /-- request lines with a mark: `true` = the line stays, `false` = the line is left out -/
 abbrev Marked := List (Bytes × Bool)
 
 def allLines (m : Marked) : List Bytes := m.map Prod.fst
 def keptLines (m : Marked) : List Bytes := (m.filter Prod.snd).map Prod.fst
 
-/-- only neutral lines are left out -/
-def OnlyNeutralDropped (T : Tables) (m : Marked) : Prop := ∀ p ∈ m, p.2 = false → Neutral T p.1 = true
+/-- only neutral lines and lines that are not messages are left out -/
+def OnlyNeutralDropped {J : Type} (T : Tables) (L : Lib J) (m : Marked) : Prop :=
+  ∀ p ∈ m, p.2 = false → Removable T L p.1 = true
 
-instance (T : Tables) (m : Marked) : Decidable (OnlyNeutralDropped T m) := by
+instance {J : Type} (T : Tables) (L : Lib J) (m : Marked) : Decidable (OnlyNeutralDropped T L m) := by
   unfold OnlyNeutralDropped; infer_instance
 
 /-- of one answer per line of `allLines m`, those to the lines that stay -/
@@ -254,7 +264,7 @@ def pairReplies (T : Tables) : List Bytes → List Bytes → List (Option Bytes)
 
 inductive IndepVerdict where
   | ok
-  /-- the case leaves out line `k`, which is not neutral (a defect of the case, not of the code) -/
+  /-- the case leaves out line `k`, which is a message some module carries out (a defect of the case, not of the code) -/
   | notNeutral (k : Nat)
   /-- the answer to the `k`-th line that stays is another one when the marked lines are left out -/
   | changed (k : Nat)
@@ -263,8 +273,8 @@ deriving DecidableEq, Repr
 /-- judge one connection of a pair of runs on two fresh nodes: `outsAll` was emitted for all the lines,
 `outsKept` for the lines that stay.  The emitted lines come canonicalised by the harness (time stamps
 masked, error reports reduced to the class name). -/
-def judgeIndep (T : Tables) (m : Marked) (outsAll outsKept : List Bytes) : IndepVerdict :=
-  match m.findIdx? (fun p => !p.2 && !Neutral T p.1) with
+def judgeIndep {J : Type} (T : Tables) (L : Lib J) (m : Marked) (outsAll outsKept : List Bytes) : IndepVerdict :=
+  match m.findIdx? (fun p => !p.2 && !Removable T L p.1) with
   | some k => .notNeutral k
   | none =>
     let a := keptOf m (pairReplies T (allLines m) outsAll)
